@@ -399,6 +399,25 @@ impl<K: Hash + Eq, KH: KeyHasher<K>> TinyLFU<K, KH> {
         (a_ctr, b_ctr)
     }
 
+    /// Verification hook (feature `verif-hooks`): a byte dump of *all* estimator state —
+    /// access counter, sample size, doorkeeper bits and sketch rows (with row seeds in the
+    /// std build) — so that two estimators can be compared for exact equality.
+    #[cfg(feature = "verif-hooks")]
+    pub fn verif_dump(&self) -> alloc::vec::Vec<u8> {
+        let mut out = alloc::vec::Vec::new();
+        out.extend_from_slice(&(self.w as u64).to_le_bytes());
+        out.extend_from_slice(&(self.samples as u64).to_le_bytes());
+        self.doorkeeper.verif_dump(&mut out);
+        self.ctr.verif_dump(&mut out);
+        out
+    }
+
+    /// Verification hook (feature `verif-hooks`): the access counter and the sample size.
+    #[cfg(feature = "verif-hooks")]
+    pub fn verif_window(&self) -> (usize, usize) {
+        (self.w, self.samples)
+    }
+
     /// Returns the hash for the key
     #[inline]
     pub fn hash_key<Q>(&self, k: &Q) -> u64
